@@ -66,6 +66,9 @@ def resolve(F, node, st, e, depth):
         return resolve(F, node, st, e.body if branch else e.orelse, depth + 1)
     if isinstance(e, ast.Call):
         cn = call_name(e)
+        helper = F.roles.funcs.get(cn) if cn else None
+        if helper is not None and cn not in ("marshal",) and not any(isinstance(x, (ast.Yield, ast.YieldFrom)) for x in ast.walk(helper)):
+            return inline_helper(F, node, st, helper, e, depth)
         if cn in ("bytes", "bytearray", "iter", "list", "tuple") and len(e.args) == 1:
             return resolve(F, node, st, e.args[0], depth + 1)
         if cn in ("bytes", "bytearray") and not e.args:
@@ -76,6 +79,82 @@ def resolve(F, node, st, e, depth):
                 out += resolve(F, node, st, a, depth + 1)
             return out
     return [("other", norm(e))]
+
+
+def inline_helper(F, node, st, helper, call, depth):
+    """a small pure helper that builds the remaining bytes: evaluate its returns with the parameters
+    bound to the caller's argument expressions (tests `p is None` are decided from the argument)."""
+    params = [a.arg for a in helper.args.args]
+    defaults = [None] * (len(params) - len(helper.args.defaults)) + list(helper.args.defaults)
+    bind = {}
+    for p, d in zip(params, defaults):
+        bind[p] = d
+    for p, a in zip(params, call.args):
+        bind[p] = a
+    for k in call.keywords:
+        if k.arg in bind:
+            bind[k.arg] = k.value
+    if any(v is None for v in bind.values()):
+        raise AnalysisError(f"C13: helper {helper.name} called with missing arguments at line {node.lineno}")
+
+    def is_none(expr):
+        """True / False / None(unknown) for `expr is None` in caller state st"""
+        if isinstance(expr, ast.Constant):
+            return expr.value is None
+        if isinstance(expr, ast.Name) and expr.id == F.roles.byte_var:
+            return st[0] == "INIT"
+        if isinstance(expr, ast.Name) and expr.id == F.roles.iter_var:
+            return False
+        return None
+
+    class Sub(ast.NodeTransformer):
+        def visit_Name(self, n):
+            if n.id in bind and isinstance(n.ctx, ast.Load):
+                import copy
+                return copy.deepcopy(bind[n.id])
+            return n
+
+    def walk(stmts):
+        outs = []
+        for i, s_ in enumerate(stmts):
+            if isinstance(s_, ast.Expr) and isinstance(s_.value, ast.Constant):
+                continue
+            if isinstance(s_, ast.Return):
+                outs.append(s_.value)
+                return outs, True
+            if isinstance(s_, ast.If):
+                t = s_.test
+                decided = None
+                neg = False
+                if isinstance(t, ast.Compare) and len(t.ops) == 1 and isinstance(t.ops[0], (ast.Is, ast.IsNot)) \
+                        and isinstance(t.left, ast.Name) and t.left.id in bind and isinstance(t.comparators[0], ast.Constant) \
+                        and t.comparators[0].value is None:
+                    v = is_none(bind[t.left.id])
+                    if v is not None:
+                        decided = v if isinstance(t.ops[0], ast.Is) else not v
+                if decided is True:
+                    o, done = walk(s_.body + stmts[i + 1:])
+                    return outs + o, done
+                if decided is False:
+                    o, done = walk(s_.orelse + stmts[i + 1:])
+                    return outs + o, done
+                o1, _ = walk(s_.body + stmts[i + 1:])
+                o2, _ = walk(s_.orelse + stmts[i + 1:])
+                return outs + o1 + o2, True
+            raise AnalysisError(f"C13: helper {helper.name} is not a simple expression builder (line {s_.lineno})")
+        return outs, False
+
+    rets, _ = walk(helper.body)
+    if not rets:
+        raise AnalysisError(f"C13: helper {helper.name} returns nothing")
+    results = []
+    for r in rets:
+        expr = Sub().visit(__import__("copy").deepcopy(r))
+        ast.fix_missing_locations(expr)
+        results.append(resolve(F, node, st, expr, depth + 1))
+    if all(x == results[0] for x in results):
+        return results[0]
+    raise AnalysisError(f"C13: helper {helper.name} builds different remaining bytes on paths the typestate cannot decide")
 
 
 def feasible(F, stmt, st):
@@ -177,7 +256,8 @@ def a3(run, project):
     pre = body[:idx]
     cons = [s for s in pre if isinstance(s, ast.Expr) and isinstance(s.value, ast.YieldFrom)
             and isinstance(s.value.value, ast.Call) and call_name(s.value.value) == "consume_bytes"]
-    ok = len(cons) == 1 and norm(cons[0].value.value.args[0]) in ("self.size_max - self.size_already",)
+    from ..fnview import expand_expr
+    ok = len(cons) == 1 and "self.size_max - self.size_already" in expand_expr(mod, f, cons[0].value.value.args[0])
     run.ob("A3", ok, "overrun: rest of the region is consumed before the error is raised",
            "SizeConstraintExceededError is raised without first consuming `size_max - size_already` bytes "
            "(remaining bytes would then include the tail of the overrun region)", module=mod, node=r,
